@@ -276,7 +276,8 @@ class HistoryGen:
     """
 
     WEIGHTS = {"define": 0.40, "leafval": 0.25, "val": 0.08, "iop": 0.10, "unreg": 0.04,
-               "ftask": 0.03, "knob": 0.03, "replace": 0.04, "unreg_task": 0.03, "reverse": 0.04}
+               "ftask": 0.03, "knob": 0.03, "replace": 0.04, "unreg_task": 0.03, "reverse": 0.04, "query": 0.05}
+    QUERIES = ("find_deps", "find_tasks", "find_tasks_all", "find_taskids", "mk_fun", "dump", "ref_queries", "iter_owner", "text", "value")
 
     def __init__(self, rng, layered=True, depth=3, weights=None, profile="full", world=None):
         self.rng = rng
@@ -340,6 +341,9 @@ class HistoryGen:
         nonleaf = [l for l in self.locs if l["group"] != "leaf"]
         leaves = [l for l in self.locs if l["group"] == "leaf"]
         tt = self.task_targets()
+        if kind == "query":
+            # read-only API calls between the operations (they must leave everything as it is)
+            return ["query", r.choice(self.QUERIES), r.choice(self.locs)["path"]]
         if kind == "define":
             cands = [l for l in (nonleaf if self.layered else [x for x in self.locs if x["kind"] not in ("key_s", "key_i", "key_t")])
                      if s.ckey(l["path"]) not in tt]
